@@ -926,6 +926,17 @@ theorem genEuler_valid (m : Model) (π : DepOrder) (ru : Bool) (L : Layout) (p :
     · exact Or.inl h
     · simp at h
 
+/-- the executable check decides `ModelWF` (used by the driver on every loaded model) -/
+theorem checkModelWF_sound (m : Model) (h : checkModelWF m = true) : ModelWF m := by
+  simp only [checkModelWF, Bool.and_eq_true, disjointNames, List.all_eq_true, Bool.not_eq_true',
+    List.contains_eq_mem, decide_eq_false_iff_not, decide_eq_true_eq, List.mem_append, not_or] at h
+  obtain ⟨⟨⟨⟨⟨⟨⟨⟨⟨h1, h2⟩, h3⟩, h4⟩, h5⟩, h6⟩, h7⟩, h8⟩, h9⟩, h10⟩ := h
+  have n8 := (allDistinct_iff _).mp h8
+  have n2 := (allDistinct_iff _).mp h2
+  refine ⟨(allDistinct_iff _).mp h1, n2, (allDistinct_iff _).mp h3, h4, h5, h6,
+    fun x hx => ⟨(h7 x hx).1.1, (h7 x hx).1.2, (h7 x hx).2⟩, ?_⟩
+  exact (List.perm_ext_iff_of_nodup n8 n2).mpr fun x => ⟨fun hx => h9 x hx, fun hx => h10 x hx⟩
+
 /-- each state has one derivative -/
 theorem derivsFunctional (m : Model) (hwf : ModelWF m) : C12.DerivsFunctional m := by
   intro d d' X h1 h2
@@ -965,6 +976,7 @@ example : ModelWF C01.m0 := by
   refine ⟨by decide, by decide, by decide, by decide, by decide, by decide, by decide, ?_⟩
   decide
 example : (genRhs C01.m0 defaultDeps false).isSome = true := by decide +kernel
+example : checkModelWF C01.m0 = true := by decide
 
 end GenValid
 end Gx
